@@ -88,10 +88,10 @@ class RegisterStack:
 
         index = reg.index.data
         pool_key = reg.register_pool_key()
-        if (
-            index in self.reserved_registers[pool_key]
-            or index not in self.allocatable_registers[pool_key]
-        ) and 0 <= index:
+        if index in self.reserved_registers[pool_key]:
+            # Reserved registers (finite or infinite) must not become available
+            return
+        if index not in self.allocatable_registers[pool_key] and 0 <= index:
             return
 
         available = self.available_registers[pool_key]
